@@ -1,0 +1,35 @@
+//go:build verif
+
+package actor
+
+// Contracts for property C32, continued: allocation of the departed node's
+// actors to the leader and the surviving peers.
+
+//@ property C32
+
+//@ spec func role_ok(roles []string, role string) bool = role == "" || exists(i, 0, len(roles), roles[i] == role)
+
+// every actor of the departed node goes to exactly one list - the leader's share
+// (singletons), one target's share, or the unplaceable list - and a target's share
+// only receives actors whose role it advertises, on the least-loaded such target
+//@ ghost local aa_pending int
+//@ func allocateActors(leaderRoles, peers, nodeLeftState, baseLoads)
+//@   ghost entry aa_pending = 0
+//@   loop 1 invariant roles-table: -1 <= rangeindex && rangeindex < len(peers) && len(targetRoles) == rangeindex + 2
+//@   loop 2 invariant every-visited-actor-placed: aa_pending == 0 && len(targetRoles) == len(peers) + 1 && len(peersShares) == len(targetRoles) && len(loads) == len(targetRoles)
+//@   loop 3 invariant scanning: -1 <= rangeindex && rangeindex < len(targetRoles) && -1 <= best && best <= rangeindex && aa_pending == 1 && len(peersShares) == len(targetRoles) && len(loads) == len(targetRoles)
+//@   loop 3 invariant best-is-eligible: best >= 0 ==> role_ok(targetRoles[best], role)
+//@   loop 3 invariant none-eligible-so-far: best == -1 ==> forall j int :: 0 <= j && j <= rangeindex ==> !role_ok(targetRoles[j], role)
+//@   loop 3 invariant best-is-least-loaded-so-far: best >= 0 ==> forall j int :: 0 <= j && j <= rangeindex && role_ok(targetRoles[j], role) ==> loads[best] <= loads[j]
+//@   at call 1 of (*Actor).GetSingleton assert previous-actor-was-placed: aa_pending == 0
+//@   at call 1 of (*Actor).GetSingleton ghost aa_pending = 1
+//@   at call 1 of builtin append assert roles-of-the-leader-first: true
+//@   at call 2 of builtin append assert roles-of-each-peer: true
+//@   at call 3 of builtin append assert leader-recreates-its-own-share: aa_pending == 0
+//@   at call 4 of builtin append assert singleton-goes-to-the-leader: aa_pending == 1
+//@   at call 4 of builtin append ghost aa_pending = 0
+//@   at call 5 of builtin append assert unplaceable-only-when-no-target-has-the-role: aa_pending == 1 && best == -1 && forall j int :: 0 <= j && j < len(targetRoles) ==> !role_ok(targetRoles[j], role)
+//@   at call 5 of builtin append ghost aa_pending = 0
+//@   at call 6 of builtin append assert placed-on-the-least-loaded-eligible-target: aa_pending == 1 && 0 <= best && best < len(targetRoles) && role_ok(targetRoles[best], role) && forall j int :: 0 <= j && j < len(targetRoles) && role_ok(targetRoles[j], role) ==> loads[best] <= loads[j]
+//@   at call 6 of builtin append ghost aa_pending = 0
+//@   ensures nothing-left-unplaced: aa_pending == 0
